@@ -1,7 +1,307 @@
-/- Model `Retry` (driver token `retry`) — stub, to be filled in. -/
-namespace Stab.Retry
+/-
+  Model `Retry` (driver token `retry`) — the attempt counter of a `RunTask` message followed
+  across queue round trips, together with the stage context that carries saved progress.
 
-/-- driver entry: the rest of the request line after the model token -/
-def drive (_rest : String) : String := "unimplemented"
+  Code mirrored (SQLite backend):
+    handlers/run_task/error.py      handle_exception, _handle_transient_retry, _mark_terminal
+    handlers/run_task/result.py     process_result / _handle_running (polling re-push), _handle_success_like
+    queue/messages.py               Message.attempts / max_attempts (defaults 0 / 10), copy_with_attempts
+    persistence/sqlite/transaction  AtomicTransaction.push_message (row `attempts`, `max_attempts` columns, payload)
+    queue/sqlite/serialization.py   deserialize_message (pops `attempts`, `max_attempts` from the payload)
+    queue/sqlite/queue.py           poll_one (filter `attempts < queue.max_attempts`, `attempts = attempts + 1`,
+                                    `message.attempts = row.attempts + 1`), reschedule (keeps the row and its attempts)
+    queue/processor/processor.py    process_one: handler raised -> reschedule (processor-level redelivery)
+
+  Two variants of the code are modelled by the same definitions:
+    `Variant.current`  the repository as found (finding F1): the row is inserted with `attempts = 0`,
+                       `handle_exception` uses the delivered 1-based count as if it were 0-based,
+                       `_handle_running` re-pushes the delivered message object.
+    `Variant.fixed`    the repository with proposed_fixes/F1.diff: the row is inserted with
+                       `attempts = message.attempts`; `handle_exception` converts the delivered 1-based count
+                       to the number of previous attempts; `_handle_running` pushes `copy_with_attempts(0)`.
+
+  The task is a parameter (`Script`): what the n-th execution does.  Everything the model does not
+  track (other context keys, outputs, the other tasks of the stage) is outside; the stage context is
+  restricted to integer-valued keys `0..15` chosen by the harness.
+-/
+import Stab.Model.Basic
+
+namespace Stab.Retry
+open Stab
+
+/-! ### stage context restricted to the tracked keys -/
+
+/-- association list, first match wins on lookup; `set` replaces in place or appends -/
+abbrev Ctx := List (Nat × Int)
+
+def Ctx.get (c : Ctx) (k : Nat) : Option Int :=
+  match c with
+  | [] => none
+  | (k', v) :: r => if k' = k then some v else Ctx.get r k
+
+def Ctx.set (c : Ctx) (k : Nat) (v : Int) : Ctx :=
+  match c with
+  | [] => [(k, v)]
+  | (k', v') :: r => if k' = k then (k, v) :: r else (k', v') :: Ctx.set r k v
+
+/-- `ctx.update(u)` : every pair of `u` is written, later pairs win -/
+def merge (c u : Ctx) : Ctx := u.foldl (fun c kv => Ctx.set c kv.1 kv.2) c
+
+/-! ### the task -/
+
+/-- what one execution of the task does -/
+inductive Act where
+  | failT (u : Ctx)      -- raise TransientError(context_update=u)
+  | succeed (u : Ctx)    -- return TaskResult.success(context=u)
+  | running (u : Ctx)    -- return TaskResult.running(context=u)
+  | failP                -- raise a non-transient exception
+  deriving Repr, DecidableEq
+
+/-- the task: execution number `n` (0-based) does `acts[n]`, or `dflt` beyond the list -/
+structure Script where
+  acts : List Act
+  dflt : Act
+  deriving Repr
+
+def Script.at (s : Script) (n : Nat) : Act :=
+  match s.acts[n]? with
+  | some a => a
+  | none => s.dflt
+
+/-! ### the pipeline, function by function -/
+
+inductive Variant where
+  | current | fixed
+  deriving DecidableEq, Repr
+
+/-- `Message.max_attempts` dataclass default -/
+def defaultMax : Nat := 10
+
+/-- a `queue_messages` row holding the task's RunTask -/
+structure Row where
+  attempts : Nat          -- column `attempts`
+  maxCol : Nat            -- column `max_attempts`
+  payloadAttempts : Nat   -- `"attempts"` inside the JSON payload
+  payloadMax : Nat        -- `"max_attempts"` inside the JSON payload
+  deriving Repr, DecidableEq
+
+/-- the message object the handler receives -/
+structure Msg where
+  attempts : Nat
+  maxAttempts : Nat
+  deriving Repr, DecidableEq
+
+/-- `deserialize_message`: pops `attempts` and `max_attempts`, so the dataclass defaults apply -/
+def deserialize (_r : Row) : Msg := { attempts := 0, maxAttempts := defaultMax }
+
+/-- environment of the chain: the queue's own limit and whether the row's `max_attempts` column is
+    copied to the delivered message (`restoreMax`: the engine does not do this; the harness does it
+    from outside when it wants a per-message limit other than the default to be visible at all) -/
+structure Env where
+  qmax : Nat
+  restoreMax : Bool
+  deriving Repr
+
+/-- the row after `poll_one` claimed it: `attempts = attempts + 1` -/
+def claimed (r : Row) : Row := { r with attempts := r.attempts + 1 }
+
+/-- the message `poll_one` returns: deserialised payload, then `message.attempts = row.attempts + 1` -/
+def delivered (e : Env) (r : Row) : Msg :=
+  { attempts := r.attempts + 1,
+    maxAttempts := if e.restoreMax then r.maxCol else (deserialize r).maxAttempts }
+
+/-- `poll_one` on this row: `none` when the filter `attempts < queue.max_attempts` rejects it;
+    otherwise the claimed row and the delivered message -/
+def pollOne (e : Env) (r : Row) : Option (Row × Msg) :=
+  if r.attempts < e.qmax then some (claimed r, delivered e r) else none
+
+/-- `copy_with_attempts` -/
+def copyWithAttempts (m : Msg) (a : Nat) : Msg := { m with attempts := a }
+
+/-- `AtomicTransaction.push_message` -/
+def pushMessage (v : Variant) (m : Msg) : Row :=
+  { attempts := (match v with | .current => 0 | .fixed => m.attempts),
+    maxCol := m.maxAttempts, payloadAttempts := m.attempts, payloadMax := m.maxAttempts }
+
+/-- `message.max_attempts or 10` -/
+def effMax (m : Msg) : Nat := if m.maxAttempts = 0 then 10 else m.maxAttempts
+
+/-- `current_attempts` of `handle_exception` -/
+def currentAttempts (v : Variant) (m : Msg) : Nat :=
+  match v with
+  | .current => m.attempts            -- `message.attempts or 0`
+  | .fixed => m.attempts - 1          -- `max((message.attempts or 0) - 1, 0)`
+
+/-- `handle_exception` on a transient error: `some retry_message` or `none` (mark terminal) -/
+def handleTransient (v : Variant) (m : Msg) : Option Msg :=
+  let cur := currentAttempts v m
+  if cur + 1 < effMax m then some (copyWithAttempts m (cur + 1)) else none
+
+/-- the message `_handle_running` pushes -/
+def pollingMessage (v : Variant) (m : Msg) : Msg :=
+  match v with
+  | .current => m
+  | .fixed => copyWithAttempts m 0
+
+/-! ### state machine over queue round trips -/
+
+structure State where
+  row : Option Row            -- the live RunTask row of the task, if any
+  ctx : Ctx                   -- durable stage context (tracked keys)
+  execs : Nat                 -- ghost: number of executions of the task so far
+  seen : List Ctx             -- ghost: context seen by each execution, oldest first
+  done : Option Status        -- status of the CompleteTask that was pushed, if any
+  deriving Repr
+
+inductive Op where
+  | handle      -- poll_one, run the handler to completion, ack
+  | drop        -- poll_one, handler raised before committing anything (or the worker died): reschedule
+  deriving DecidableEq, Repr
+
+/-- what the harness can observe about one op -/
+inductive Obs where
+  | noRow                                   -- nothing to poll for this task
+  | stuck                                   -- the row exists but `attempts >= queue.max_attempts`
+  | dropped (rowAttempts : Nat)
+  | retried (n : Nat) (m : Msg) (saw : Ctx) (row : Row) (stored : Bool) (ctx : Ctx)
+  | polled (n : Nat) (m : Msg) (saw : Ctx) (row : Row) (ctx : Ctx)
+  | completed (n : Nat) (m : Msg) (saw : Ctx) (st : Status) (ctx : Ctx)
+  deriving Repr
+
+/-- the first RunTask row, pushed by StartTaskHandler (a fresh message: attempts 0, max = `m`) -/
+def initRow (m : Nat) : Row := { attempts := 0, maxCol := m, payloadAttempts := 0, payloadMax := m }
+
+def init (m : Nat) (c : Ctx) : State := { row := some (initRow m), ctx := c, execs := 0, seen := [], done := none }
+
+/-- the RunTask handler on a delivered message: execute the task, then commit the outcome -/
+def handleMsg (v : Variant) (sc : Script) (s : State) (m : Msg) : State × Obs :=
+  let n := s.execs
+  let s1 := { s with execs := n + 1, seen := s.seen ++ [s.ctx] }
+  match sc.at n with
+  | .failT u =>
+    match handleTransient v m with
+    | some rm =>
+      -- `if context_update:` store the fresh stage with the update in the same commit as the retry message
+      let ctx' := if u.isEmpty then s.ctx else merge s.ctx u
+      let row := pushMessage v rm
+      ({ s1 with ctx := ctx', row := some row }, .retried n m s.ctx row (!u.isEmpty) ctx')
+    | none =>
+      -- `_mark_terminal`: context["exception"] (not tracked) + CompleteTask(failure_status = TERMINAL)
+      ({ s1 with row := none, done := some .terminal }, .completed n m s.ctx .terminal s.ctx)
+  | .failP =>
+    ({ s1 with row := none, done := some .terminal }, .completed n m s.ctx .terminal s.ctx)
+  | .succeed u =>
+    let ctx' := merge s.ctx u
+    ({ s1 with ctx := ctx', row := none, done := some .succeeded }, .completed n m s.ctx .succeeded ctx')
+  | .running u =>
+    let ctx' := merge s.ctx u
+    let row := pushMessage v (pollingMessage v m)
+    ({ s1 with ctx := ctx', row := some row }, .polled n m s.ctx row ctx')
+
+def step (v : Variant) (e : Env) (sc : Script) (s : State) (op : Op) : State × Obs :=
+  match s.row with
+  | none => (s, .noRow)
+  | some r =>
+    match pollOne e r with
+    | none => (s, .stuck)
+    | some (r', m) =>
+      match op with
+      | .drop => ({ s with row := some r' }, .dropped r'.attempts)
+      | .handle => handleMsg v sc s m
+
+def run (v : Variant) (e : Env) (sc : Script) (s : State) : List Op → State
+  | [] => s
+  | op :: ops => run v e sc (step v e sc s op).1 ops
+
+def trace (v : Variant) (e : Env) (sc : Script) (s : State) : List Op → List Obs
+  | [] => []
+  | op :: ops => (step v e sc s op).2 :: trace v e sc (step v e sc s op).1 ops
+
+/-! ### driver
+
+  `retry <current|fixed> q=<qmax> shim=<0|1> max=<M> ctx=<kv|-> script=<act;act;...|-> dflt=<act> ops=<h|x ...|->`
+  `kv`  = `k:v,k:v` (keys 0..15);  `act` = `F<kv>` | `S<kv>` | `R<kv>` | `P`;  ops: string over `h` (handle) and `x` (drop)
+  answer: one item per op joined by `|`, then `end ...`
+-/
+
+def showCtx (c : Ctx) : String :=
+  let items := (List.range 16).filterMap (fun k => (Ctx.get c k).map (fun v => s!"{k}:{v}"))
+  if items.isEmpty then "-" else ",".intercalate items
+
+def parseKV (s : String) : Option (Nat × Int) :=
+  match s.splitOn ":" with
+  | [k, v] => do
+    let k ← Parse.nat? k
+    let v ← Parse.int? v
+    if k < 16 then pure (k, v) else none
+  | _ => none
+
+def parseCtx (s : String) : Option Ctx :=
+  if s == "-" || s.isEmpty then some [] else Parse.all? parseKV (s.splitOn ",")
+
+def parseAct (s : String) : Option Act :=
+  let body := (s.drop 1).toString
+  match (s.take 1).toString with
+  | "F" => (parseCtx body).map .failT
+  | "S" => (parseCtx body).map .succeed
+  | "R" => (parseCtx body).map .running
+  | "P" => if body.isEmpty then some .failP else none
+  | _ => none
+
+def parseOps (s : String) : Option (List Op) :=
+  if s == "-" then some [] else
+  Parse.all? (fun c => if c == "h" then some Op.handle else if c == "x" then some Op.drop else none)
+    (s.toList.map (fun c => String.singleton c))
+
+def kvArg (key : String) (tok : String) : Option String :=
+  if tok.startsWith (key ++ "=") then some (tok.drop (key.length + 1)).toString else none
+
+def showRow (r : Row) : String := s!"{r.attempts}/{r.maxCol}"
+
+def showObs : Obs → String
+  | .noRow => "none"
+  | .stuck => "stuck"
+  | .dropped a => s!"x:{a}"
+  | .retried n m saw row stored ctx =>
+    s!"E{n + 1} a={m.attempts} m={m.maxAttempts} see={showCtx saw} retry:{showRow row} v{if stored then 1 else 0} c={showCtx ctx}"
+  | .polled n m saw row ctx =>
+    s!"E{n + 1} a={m.attempts} m={m.maxAttempts} see={showCtx saw} poll:{showRow row} v1 c={showCtx ctx}"
+  | .completed n m saw st ctx =>
+    s!"E{n + 1} a={m.attempts} m={m.maxAttempts} see={showCtx saw} done:{st.name} v1 c={showCtx ctx}"
+
+/-- task / stage / workflow status once everything else has been drained, for the single-stage
+    workflows the harness builds (every other task succeeds): they follow the task's CompleteTask;
+    while a RunTask is still owed (or stuck behind the queue's limit) everything is RUNNING -/
+def finalStatuses (s : State) : String :=
+  match s.done with
+  | some st => s!"{st.name}/{st.name}/{st.name}"
+  | none => "RUNNING/RUNNING/RUNNING"
+
+def showEnd (s : State) : String :=
+  let d := match s.done with | some st => st.name | none => "-"
+  let r := match s.row with | some r => showRow r | none => "-"
+  s!"end execs={s.execs} done={d} row={r} c={showCtx s.ctx} fin={finalStatuses s}"
+
+def drive (rest : String) : String :=
+  match rest.splitOn " " with
+  | [v, q, sh, mx, cx, scr, df, ops] =>
+    let parsed : Option (Variant × Env × Nat × Ctx × Script × List Op) := do
+      let v ← (if v == "current" then some Variant.current else if v == "fixed" then some Variant.fixed else none)
+      let q ← (kvArg "q" q) >>= Parse.nat?
+      let sh ← (kvArg "shim" sh) >>= Parse.bool?
+      let mx ← (kvArg "max" mx) >>= Parse.nat?
+      let cx ← (kvArg "ctx" cx) >>= parseCtx
+      let scr ← kvArg "script" scr
+      let acts ← (if scr == "-" then some [] else Parse.all? parseAct (scr.splitOn ";"))
+      let df ← (kvArg "dflt" df) >>= parseAct
+      let ops ← (kvArg "ops" ops) >>= parseOps
+      pure (v, { qmax := q, restoreMax := sh }, mx, cx, { acts := acts, dflt := df }, ops)
+    match parsed with
+    | some (v, e, mx, cx, sc, ops) =>
+      let s0 := init mx cx
+      let obs := trace v e sc s0 ops
+      "|".intercalate (obs.map showObs ++ [showEnd (run v e sc s0 ops)])
+    | none => "bad-request"
+  | _ => "bad-request"
 
 end Stab.Retry
